@@ -649,14 +649,10 @@ where
         IT: IntoIterator<Item = (I, P)>,
     {
         let iter = iter.into_iter();
-        let (min, max) = iter.size_hint();
-        let mut store = if let Some(max) = max {
-            Self::with_capacity_and_hasher(max, <_>::default())
-        } else if min > 0 {
-            Self::with_capacity_and_hasher(min, <_>::default())
-        } else {
-            Self::with_hasher(<_>::default())
-        };
+        // Only the lower bound says how many elements will surely come: the
+        // upper bound may be far above what the iterator really yields.
+        let (min, _) = iter.size_hint();
+        let mut store = Self::with_capacity_and_hasher(min, <_>::default());
         for (item, priority) in iter {
             if store.map.contains_key(&item) {
                 let (_, old_item, old_priority) = store.map.get_full_mut2(&item).unwrap();
